@@ -1,13 +1,42 @@
 import KyupyVerif.Proofs.WaveCircuit
 import KyupyVerif.Proofs.PairExec
 import KyupyVerif.Proofs.WaveParity
+import KyupyVerif.Proofs.WaveMemCirc
+import KyupyVerif.Proofs.WaveMemDemo
+import KyupyVerif.Proofs.Capture
+import KyupyVerif.Props.C08
 /-! # C03 — timing simulation settles to the Boolean function for any delays/capacity
 
 Model (M, tied by correspondence with `wave_eval_cpu` and whole `WaveSim` runs): `Wave.waveEval` is a
 transcription of `wave_sim._wave_eval` (four cursors, toggle mask, output stack, pulse filtering, overflow
 branch, terminator); `Wave.simWave` runs it over an op program with per-line delay tables and per-signal
 capacities.  Time is exact integer ticks plus the sentinels `tmin < fin _ < tmax < tovl` (the real code
-uses float32; the tie holds on a dyadic grid, see DESIGN.md section 3). -/
+uses float32; the tie holds on a dyadic grid, see DESIGN.md section 3).
+
+**Memory level** (second half of this file). The theorems above speak about signals (`simWave`: an environment
+`Nat → Wv`). The real simulator keeps every waveform in the flat array `c` inside the region
+`[c_locs[i], c_locs[i] + c_caps[i])` of its signal: entries, one terminator, stale cells behind it; regions are shared by
+stripped fork branches and their stems and, with `c_reuse`, re-used once a signal is dead. `Wave.rdWave` reads a region
+the way `_wave_eval`, `wave_capture_cpu` and the harness do (up to the first cell `≥ TMAX`, never beyond the capacity),
+`Wave.wrWave junk` writes entries + terminator and ANY left-overs `junk` behind it, `Wave.WaveStep` is the contract of
+one `_wave_eval` call on memory (only the output region changes; it then reads as `waveEval` of what the four operand
+regions — addressed through `c_locs/c_caps` of the operand INDEX, so a stripped branch reads its stem's memory — read
+before), `Wave.WaveRun` a sequence of such calls.
+THEOREMS: `wave_storage_roundtrip`, `wave_result_fits` (the evaluator's result always fits the capacity of its output:
+at most `cap - 1` entries + terminator), `wave_memory_sound` (accepted map certificate ⇒ in every memory reachable by
+such calls in any duplicate-free order that respects `level_starts`, every output slot's region reads as the waveform
+`simWave` computes for the captured signal), `wave_memory_run_exists` (the deterministic read-evaluate-write run is such a
+run, for every choice of left-overs — the statement is not vacuous), `wave_memory_settles`,
+`wave_sim_end_to_end_all_circuits` (for the tables of the `SimOps` model — every well-formed netlist, topological order,
+`strip_forks`/`c_reuse` setting, capacity vector, `c_caps_min ≥ 4`, delays ≥ 0, well-formed input waveforms — the
+certificate is the theorem `C08.simops_map_accepted`, and what `c_to_s` finds in the region of output slot `i` starts /
+ends at the value THE solution of the netlist's gate equations gives to the captured line for the initial / final input
+values; also the captured `s[3]`, `s[6]`).
+STILL CORRESPONDENCE: that the real `_wave_eval` honours `WaveStep` (its result is `waveEval`'s: gate-level and
+whole-run correspondence of C03; its writes stay inside the output region: guard cells in the gate-level check), that the
+real tables are the model's tables (C08), float32 vs exact time. The harness additionally compares, on every whole run
+(also with `c_reuse`), the real memory at every output slot read through `c_locs/c_caps` of the SLOT index with the model's
+signal-level waveform of the captured signal. -/
 namespace KV.C03
 open KV KV.Sig KV.Wave
 
@@ -75,5 +104,190 @@ example : (waveEval 0xAAAA (fun _ _ _ => 0) (fun i => if i = 0 then [T.tmin, T.f
 /-- non-vacuity: a NAND2 whose second operand rises at 3 while the first is high from the start; delays 1 -/
 example : (waveSem ⟨fun _ _ _ => 1, fun _ => 4⟩ ⟨0x7777, 7, [0, 1, 9, 9]⟩ [⟨[T.tmin], T.tmax⟩, ⟨[T.fin 3], T.tmax⟩, Wv.empty, Wv.empty])
     = ⟨[T.tmin, T.fin 4], T.tmax⟩ := by decide +kernel
+
+/-! ## memory level -/
+open KV.MapSound
+
+/-- storing and reading back: a waveform with fewer than `c` entries, none of them a terminator, and a genuine
+    terminator is read back exactly from a region of capacity `c`, whatever is left in the cells behind the terminator
+    and whatever the rest of memory holds; nothing outside the region changes -/
+theorem wave_storage_roundtrip (junk : Int → T) (l : Int) (c : Nat) (w : Wv) (m : Int → T) (hf : Fits c w) :
+    rdWave l c (wrWave junk l c w m) = w ∧
+    ∀ a, ¬ (l ≤ a ∧ a < l + (c : Int)) → wrWave junk l c w m a = m a :=
+  ⟨rd_wr_fit junk l c w m hf, fun a h => wrWave_frame junk l c w m a h⟩
+
+/-- non-vacuity: a two-entry waveform fits a region of capacity 4 (not one of capacity 2) -/
+example : Fits 4 ⟨[T.tmin, T.fin 8], T.tmax⟩ ∧ ¬ Fits 2 ⟨[T.tmin, T.fin 8], T.tmax⟩ := by
+  refine ⟨⟨by decide, by decide, rfl⟩, fun h => absurd h.1 (by decide)⟩
+
+/-- **writes stay inside the capacity**: for delays ≥ 0, output capacity ≥ 4 and well-formed operands the evaluator's
+    result has at most `cap - 1` entries, none of them a terminator, and a terminator — it fits the output region -/
+theorem wave_result_fits (cfg : WCfg) (op : Op) (xs : List Wv) (hd : ∀ l p q, 0 ≤ cfg.delay l p q)
+    (hc : 4 ≤ cfg.cap op.out) (hx : ∀ x ∈ xs, x.ok) : Fits (cfg.cap op.out) (waveSem cfg op xs) :=
+  waveSem_fits cfg op xs hd hc hx
+
+/-- an input slot as `s_to_c` fills it (three cells) reads as the stimulus waveform; fresh memory reads as constant 0 -/
+theorem stimulus_in_memory (l : Int) (c : Nat) (m : Int → T) (i f : Bool) (t : Int)
+    (h : (cells l c m).take 3 = stimCells i t f) : rdWave l c m = stimWave i t f := rdWave_stim l c m i f t h
+
+/-- the initial memory of a simulation — `s_to_c` has written its three cells into every input slot (initial value, transition
+    time, final value per slot: `stim`), the zero slot still starts with the `TMAX` of the freshly allocated array — satisfies
+    the stimulus hypothesis of the theorems below: all these regions read as well-formed waveforms, namely the stimulus
+    waveforms `stimWave` and the constant 0 -/
+theorem stimulus_memory_ok (p : MapIn) (m0 : Int → T) (stim : Nat → Bool × Int × Bool)
+    (hs : ∀ x ∈ p.ppiSlots, (cells (p.loc x) (p.cap x) m0).take 3 = stimCells (stim x).1 (stim x).2.1 (stim x).2.2)
+    (hz : (cells (p.loc p.ix.zero) (p.cap p.ix.zero) m0).head? = some T.tmax) :
+    (∀ x, x ∈ p.ppiSlots ∨ x = p.ix.zero → (rdWave (p.loc x) (p.cap x) m0).ok) ∧
+    (∀ x ∈ p.ppiSlots, inputEnv p m0 x = stimWave (stim x).1 (stim x).2.1 (stim x).2.2) := by
+  constructor
+  · intro x hx
+    by_cases hxp : x ∈ p.ppiSlots
+    · rw [rdWave_stim _ _ _ _ _ _ (hs x hxp)]; exact stimWave_ok _ _ _
+    · rcases hx with h | h
+      · exact absurd h hxp
+      · subst h; rw [rdWave_tmax_head _ _ _ hz]; exact Wv.empty_ok
+  · intro x hx
+    unfold inputEnv
+    rw [if_pos (Or.inl hx)]
+    exact rdWave_stim _ _ _ _ _ _ (hs x hx)
+
+/-- for an accepted map the region a row writes overlaps the region of none of its operands — so "read the four operand
+    waveforms, evaluate, store the result" (the step of the memory model) describes an evaluator that, like `_wave_eval`,
+    reads operand cells and writes output cells interleaved -/
+theorem operands_disjoint_from_output (p : MapIn) (hc : p.check = none) (k : Nat) (o : OpRow) (hk : p.ops[k]? = some o)
+    (i : Nat) (hi : i ∈ o.ins) : p.overlap i o.out = false :=
+  operand_output_disjoint (good_of_check p hc) hk hi
+
+/-- **memory level = signal level** (any map the certificate accepts, any implementation of the evaluator calls that
+    honours `WaveStep`, any duplicate-free execution order that respects `level_starts`): the region of every output slot
+    `j` reads as the waveform `simWave` computes — in program order, without any memory — for the captured signal `s`.
+    `env0`: any signal environment that agrees with the initial memory on the signals no row writes (input slots, zero
+    slot). No hypothesis on delays or capacities is needed here: a run that honours the contract is given. -/
+theorem wave_memory_sound (p : MapIn) (hc : p.check = none) (delay : Nat → Bool → Bool → Int)
+    (sched : List Nat) (hsched : p.schedOKB sched = true) (m0 m' : Int → T) (env0 : Nat → Wv)
+    (h0 : ∀ x ∈ p.tracked, (∀ o ∈ p.ops, o.out ≠ x) → rdWave (p.loc x) (p.cap x) m0 = env0 x)
+    (hrun : WaveRun p (wcfg p delay) (schedOps p sched) m0 m') :
+    ∀ j s, (j, s) ∈ p.ppoSrcs → rdWave (p.loc j) (p.cap j) m' = simWave (wcfg p delay) (waveProg p) env0 s :=
+  wave_mem_sound p hc delay sched (schedOKB_sound p sched hsched).1 (schedOKB_sound p sched hsched).2 m0 m' env0 h0 hrun
+
+/-- **such runs exist**: with `c_caps_min ≥ 4`, delays ≥ 0 and well-formed input waveforms, reading the four operand
+    regions, evaluating `waveEval` and storing the result into the output region (with ANY left-overs `junk` behind the
+    terminator) honours the contract at every step: every result fits, the operands stay well formed -/
+theorem wave_memory_run_exists (p : MapIn) (hc : p.check = none) (h4 : 4 ≤ p.capsMin) (delay : Nat → Bool → Bool → Int)
+    (hd : ∀ l a b, 0 ≤ delay l a b) (junk : Int → Nat → Wv → (Int → T) → Int → T)
+    (sched : List Nat) (hsched : p.schedOKB sched = true) (m0 : Int → T) (env0 : Nat → Wv) (henv : ∀ x, (env0 x).ok)
+    (h0 : ∀ x ∈ p.tracked, (∀ o ∈ p.ops, o.out ≠ x) → rdWave (p.loc x) (p.cap x) m0 = env0 x) :
+    WaveRun p (wcfg p delay) (schedOps p sched) m0
+      (memRun p (waveRW junk) (waveRow (wcfg p delay) p) (schedOps p sched) m0) :=
+  wave_memRun_ok p hc h4 delay hd junk sched (schedOKB_sound p sched hsched).1 m0 env0 henv h0
+
+/-- `wave_settles` on memory: what the region of output slot `j` holds after the run is a well-formed waveform that
+    starts at the Boolean function (2-valued simulation of the rows `LogicSim` runs, operands resolved through the stems)
+    of the inputs' initial values and ends at the Boolean function of their final values -/
+theorem wave_memory_settles (p : MapIn) (hc : p.check = none) (h4 : 4 ≤ p.capsMin) (delay : Nat → Bool → Bool → Int)
+    (hd : ∀ l a b, 0 ≤ delay l a b) (sched : List Nat) (hsched : p.schedOKB sched = true) (m0 m' : Int → T)
+    (env0 : Nat → Wv) (henv : ∀ x, (env0 x).ok)
+    (h0 : ∀ x ∈ p.tracked, (∀ o ∈ p.ops, o.out ≠ x) → rdWave (p.loc x) (p.cap x) m0 = env0 x)
+    (hrun : WaveRun p (wcfg p delay) (schedOps p sched) m0 m') (j s : Nat) (hjs : (j, s) ∈ p.ppoSrcs) :
+    (rdWave (p.loc j) (p.cap j) m').ok ∧
+    (rdWave (p.loc j) (p.cap j) m').init = exec lutSem (p.ops.map (sigOp p)) (fun x => (env0 x).init) s ∧
+    (rdWave (p.loc j) (p.cap j) m').final = exec lutSem (p.ops.map (sigOp p)) (fun x => (env0 x).final) s := by
+  rw [wave_memory_sound p hc delay sched hsched m0 m' env0 h0 hrun j s hjs]
+  have := wave_settles (wcfg p delay) (waveProg p) (wcfg_good p hc h4 delay hd) env0 henv s
+  unfold waveProg at this ⊢
+  rw [exec_waveProg lutSem first4_lutSem, exec_waveProg lutSem first4_lutSem] at this
+  exact this
+
+/-- **end to end on the real memory layout, ALL circuits, no per-instance certificate.** `p` = the map record the
+    `SimOps` model builds (`genOps`, `stemsOf`, `levelise`, `memMap` with the first-fit allocator; equal to the real `ops`,
+    `level_starts`, `c_locs`, `c_caps`, `c_len` by exact correspondence) for ANY netlist with `Net.wfB`, topological order,
+    `strip_forks` setting (`forksOKB` when on), `c_reuse` setting, capacity vector, `c_caps_min ≥ 4` (WaveSim passes 4);
+    delays ≥ 0; initial memory `m0` whose input slots and zero slot hold well-formed waveforms; `m'` ANY memory reached by
+    evaluator calls honouring `WaveStep` in ANY order certified by `schedOKB` (program order, or a permutation inside the
+    levels). Then for every interface node `n` (output port, flip-flop, latch) at position `i` whose data pin reads line
+    `l`, the region of output slot `i` — what `c_to_s` scans — holds a well-formed waveform `w` that IS the signal-level
+    waveform of the captured signal, whose initial value is `vi l` and whose final value is `vf l`, where `vi` / `vf` are
+    ANY solution of the netlist's gate equations (rows of the un-stripped program, 2-valued LUT semantics) for the
+    initial / final values of the input waveforms; and `wave_capture` returns exactly these as `s[3]`, `s[6]` for every
+    capture time. -/
+theorem wave_sim_end_to_end_all_circuits (tbl : List PrefixRow) (net : Net) (order : List Nat) (strip : Bool)
+    (capsIn : Nat → Nat) (capsMin : Nat) (reuse : Bool) (p : MapIn)
+    (hp : p = simopsMap tbl net order strip capsIn capsMin reuse)
+    (hwf : net.wfB = true) (ho : orderOKB net order = true) (hf : strip = true → forksOKB net order = true)
+    (hr : readsDrivenB tbl net order = true) (h4 : 4 ≤ capsMin)
+    (delay : Nat → Bool → Bool → Int) (hd : ∀ l a b, 0 ≤ delay l a b)
+    (sched : List Nat) (hsched : p.schedOKB sched = true) (m0 m' : Int → T)
+    (hin : ∀ x, x ∈ p.ppiSlots ∨ x = p.ix.zero → (rdWave (p.loc x) (p.cap x) m0).ok)
+    (hrun : WaveRun p (wcfg p delay) (schedOps p sched) m0 m')
+    (vi vf : Nat → Bool)
+    (hvi : SolvesJ (Jt net) (fun op => lutSem op.code) ((genOps tbl net order false).map OpRow.toOp)
+      (fun x => (inputEnv p m0 x).init) vi)
+    (hvf : SolvesJ (Jt net) (fun op => lutSem op.code) ((genOps tbl net order false).map OpRow.toOp)
+      (fun x => (inputEnv p m0 x).final) vf)
+    (n i l : Nat) (hn : (n, i) ∈ net.sNodes.zipIdx) (hl : (net.node n).inPin 0 = some l) (time : T) :
+    let w := rdWave (p.loc (net.idx.ppo + i)) (p.cap (net.idx.ppo + i)) m'
+    w = simWave (wcfg p delay) (waveProg p) (inputEnv p m0) (p.src l) ∧
+    w.ok ∧ w.init = vi l ∧ w.final = vf l ∧
+    (captureWv w time).init = vi l ∧ (captureWv w time).final = vf l := by
+  intro w
+  have hc : p.check = none := by
+    rw [hp]; exact simopsMap_accepted tbl net order strip capsIn capsMin reuse hwf ho hf hr (by omega)
+  have hcm : p.capsMin = capsMin := by rw [hp]; rfl
+  have hnet : p.net = net := by rw [hp]; rfl
+  have hjs : (net.idx.ppo + i, p.src l) ∈ p.ppoSrcs := by
+    have := mem_ppoSrcs p (n := n) (i := i) (l := l) (by rw [hnet]; exact hn) (by rw [hnet]; exact hl)
+    have hix : p.ix = net.idx := by show p.net.idx = _; rw [hnet]
+    rw [hix] at this; exact this
+  have hsound := wave_memory_sound p hc delay sched hsched m0 m' (inputEnv p m0) (inputEnv_h0 p m0) hrun _ _ hjs
+  obtain ⟨hok, hi, hfin⟩ := wave_memory_settles p hc (by omega) delay hd sched hsched m0 m' (inputEnv p m0)
+    (inputEnv_ok p m0 hin) (inputEnv_h0 p m0) hrun _ _ hjs
+  have hci : w.init = vi l := by
+    show (rdWave _ _ m').init = _
+    rw [hi, hp]
+    exact captured_logic tbl net order strip capsIn capsMin reuse hwf ho hf hr lutSem false lutSem_buf1 _ vi
+      (hp ▸ hvi) n i l hn hl
+  have hcf : w.final = vf l := by
+    show (rdWave _ _ m').final = _
+    rw [hfin, hp]
+    exact captured_logic tbl net order strip capsIn capsMin reuse hwf ho hf hr lutSem false lutSem_buf1 _ vf
+      (hp ▸ hvf) n i l hn hl
+  refine ⟨hsound, hok, hci, hcf, ?_, ?_⟩
+  · rw [capture_spec]; exact hci
+  · rw [capture_spec]; exact hcf
+
+/-! ### non-vacuity of the memory-level theorems
+`Wave.memDemo` (Proofs/WaveMemDemo.lean): `o = INV1(AND2(a, b))` with a fork behind each input as
+`WaveSim(c_caps=4, c_reuse=True, strip_forks=True)` lays it out (branches alias their stems, line 5 and the output slot re-use
+the region of line 0 at cells 20…23); input `a` rises at 5, `b` is constant 1. -/
+
+/-- every hypothesis of `wave_sim_end_to_end_all_circuits` holds for it — the run is the deterministic one of
+    `wave_memory_run_exists`, executed with the two input rows swapped, with arbitrary left-overs behind the terminators —
+    and the conclusion is not trivial: the region of the output slot (cells 20…23, first used by line 0) ends up holding
+    `[TMIN, 8]`: the output is initially 1 and falls at 5 + 3 gate delays -/
+example (junk : Int → Nat → Wv → (Int → T) → Int → T) :
+    rdWave 20 4 (memRun memDemo (waveRW junk) (waveRow (wcfg memDemo memDemoDelay) memDemo)
+      (schedOps memDemo [1, 0, 2, 3]) memDemoM0) = ⟨[T.tmin, T.fin 8], T.tmax⟩ := by
+  have hw := genOps_WOJ Gen.kindPrefixes memDemoNet memDemoOrder false memDemo_hyps.1 memDemo_hyps.2.1
+  have key := (wave_sim_end_to_end_all_circuits Gen.kindPrefixes memDemoNet memDemoOrder true (fun _ => 4) 4 true memDemo rfl
+    memDemo_hyps.1 memDemo_hyps.2.1 (fun _ => memDemo_hyps.2.2.1) memDemo_hyps.2.2.2 (by decide)
+    memDemoDelay memDemoDelay_nonneg [1, 0, 2, 3] memDemo_tables.2.2.2.2.2 memDemoM0 _ memDemo_inputs (memDemo_run junk) _ _
+    (execG_solution _ _ _ hw _) (execG_solution _ _ _ hw _) 6 2 5 (by decide +kernel) (by decide +kernel) T.tmax).1
+  have hloc : memDemo.loc (memDemoNet.idx.ppo + 2) = 20 ∧ memDemo.cap (memDemoNet.idx.ppo + 2) = 4 := by decide +kernel
+  rw [hloc.1, hloc.2] at key
+  rw [key]
+  exact memDemo_sim
+
+/-- the demo memory is what `s_to_c` leaves for `a = (0, 5, 1)`, `b = (1, ·, 1)` (hypotheses of `stimulus_memory_ok`), and the
+    regions written by the rows avoid their operands' regions although line 5 re-uses the region of line 0 -/
+example :
+    let stim : Nat → Bool × Int × Bool := fun x => if x = 9 then (false, 5, true) else (true, 0, true)
+    (∀ x ∈ memDemo.ppiSlots, (cells (memDemo.loc x) (memDemo.cap x) memDemoM0).take 3 =
+      stimCells (stim x).1 (stim x).2.1 (stim x).2.2) ∧
+    (cells (memDemo.loc memDemo.ix.zero) (memDemo.cap memDemo.ix.zero) memDemoM0).head? = some T.tmax ∧
+    memDemo.loc 5 = memDemo.loc 0 ∧
+    (memDemo.ops.all fun o => o.ins.all fun i => !memDemo.overlap i o.out) = true := by
+  intro stim
+  rw [memDemo_tables.2.2.1]
+  decide +kernel
 
 end KV.C03
